@@ -1,4 +1,5 @@
 import Mkdb.Proofs.Wal
+import Mkdb.Proofs.CrashPrefix
 /-!
 # C03 — a crash while a statement is being logged leaves a row-prefix state
 
@@ -6,10 +7,15 @@ Property theorems only.  Quantifier: every list of well-formed records (any numb
 every cut position `n` of the log file - every byte position, not only the boundaries between the
 writes `wal.flush` issues.  What is proved is the log-file half of the property: the reader never
 sees a later record without the earlier ones, never half a record, never an error, and what is
-appended after recovery is read back right behind the surviving prefix.  That each record is one
-row operation applied in statement order, and that replaying a prefix of the records yields the
-corresponding table state, is the concrete model `Mkdb.Engine.recover`, compared with the
-implementation on crash images taken before every write and sync of the log (partial: no theorem).
+appended after recovery is read back right behind the surviving prefix.  The storage half follows
+(second part of this file, `Mkdb.Store`): after any history of acknowledged statements, a crash that
+cuts the append of an INSERT / DELETE / UPDATE after ANY number `k` of its records recovers to a store
+that abstracts to a plain-model database in which the statement's table holds one of the row-prefix
+states `Spec.rowPrefixStates` lists - the very list the judge of the crash-image runs uses - and
+every other table is untouched, with the row-id counter advanced by exactly the rows applied.
+Scenario of these theorems: no page of the history reached the data file since `db0` (the append
+of a statement's records happens before the flusher can run on its pages; flushes between earlier
+statements are the subject of C02/C04).
 -/
 namespace Mkdb.Wal
 
@@ -44,3 +50,96 @@ example : (⟨1, 7, 3, 2, [0xAA, 0xBB]⟩ : Rec).wf ∧
   refine ⟨by simp only [Rec.wf, List.length_cons, List.length_nil]; omega, by decide⟩
 
 end Mkdb.Wal
+
+namespace Mkdb.Store
+open Mkdb.Engine Mkdb.Tree Mkdb.Page Mkdb.Tuple Mkdb.Generated
+
+/-- **C03.insert_crash_leaves_row_prefix**: after a history of acknowledged statements (`SpecRun`), a
+multi-row INSERT ran in memory and the crash cut the append of its records after `k` of them, for
+ANY `k` (an INSERT that moves the root of its table logs two records for that row; a cut between them
+is covered: the INSERT record alone re-points the catalog).  Recovery ends without error in a store
+that abstracts to a plain database where the table holds its rows before the statement plus the
+first `j` new rows - never a later row without an earlier one, never half a row - every other table
+is as before, and the row-id counter is the one before the statement plus `j`. -/
+theorem C03_insert_crash_leaves_row_prefix (sch : Levels) {db0 dbN : Engine.DB} {sdb0 sdbN : Spec.SDB}
+    {stmts : List EStmt} (run : SpecRun sch db0 sdb0 stmts dbN sdbN) (hwal : db0.wal = [])
+    (pt : Levels) (tbls : List (Bytes × Levels)) (hA : AbsV db0.store pt sch tbls sdb0)
+    (hself : PtSelf pt) (hf : FreshM db0.store tbls)
+    (table : Bytes) (cols : List Bytes) (lrows : List (List Sql.Lit))
+    (hvalid : ∀ r ∈ lrows.map (fun r => r.map Spec.litVal), ∀ v ∈ r, ValidVal v) (sdbC : Spec.SDB)
+    (hspec : Spec.specInsert sdbN table cols (lrows.map fun r => r.map Spec.litVal) = some sdbC)
+    (hrunok : ∀ pt tbls t schema, AbsV dbN.store pt sch tbls sdbN → (table, t) ∈ tbls →
+      schemaOf sch table = some schema →
+      InsRunOK schema (cols.map Engine.bytesToName) t dbN.store.hdr.lastKey dbN.store.hdr.nextLSN
+        dbN.store.hdr.nextFree (lrows.map fun r => r.map Spec.litVal))
+    (n : Nat) (dbC : Engine.DB)
+    (heval : Engine.evalInsert dbN table cols (lrows.map fun r => r.map Spec.litVal) = .ok n dbC) (k : Nat) :
+    ∃ rK ptR tblsK sdbK stK j,
+      replayAll (dbN.wal ++ (dbC.wal.drop dbN.wal.length).take k) db0.store = (rK, none, false) ∧
+      AbsV rK ptR sch tblsK sdbK ∧
+      Spec.findTable sdbK table = some stK ∧
+      (table, stK.rows.map (·.vals)) ∈ Spec.rowPrefixStates sdbN (.insert table cols lrows) ∧
+      (∀ n, n ≠ table → Spec.findTable sdbK n = Spec.findTable sdbN n) ∧
+      j ≤ lrows.length ∧ rK.hdr.lastKey = dbN.store.hdr.lastKey + j :=
+  insert_crash_rowPrefixState sch run hwal pt tbls hA hself hf table cols lrows hvalid sdbC hspec hrunok n dbC heval k
+
+/-- **C03.delete_crash_leaves_row_prefix**: likewise for DELETE - the first `min k (selected rows)`
+selected rows are gone, in the order the statement deleted them. -/
+theorem C03_delete_crash_leaves_row_prefix (sch : Levels) {db0 dbN : Engine.DB} {sdb0 sdbN : Spec.SDB}
+    {stmts : List EStmt} (run : SpecRun sch db0 sdb0 stmts dbN sdbN) (hwal : db0.wal = [])
+    (pt : Levels) (tbls : List (Bytes × Levels)) (hA : AbsV db0.store pt sch tbls sdb0)
+    (hself : PtSelf pt) (hf : FreshM db0.store tbls)
+    (table : Bytes) (w : Option Sql.Cond) (sdbC : Spec.SDB)
+    (hspec : Spec.specDelete sdbN table w = some sdbC)
+    (n : Nat) (dbC : Engine.DB) (heval : Engine.evalDelete dbN table w = .ok n dbC) (k : Nat) :
+    ∃ rK ptK tblsK sdbK stK,
+      replayAll (dbN.wal ++ (dbC.wal.drop dbN.wal.length).take k) db0.store = (rK, none, false) ∧
+      AbsV rK ptK sch tblsK sdbK ∧
+      Spec.findTable sdbK table = some stK ∧
+      (table, stK.rows.map (·.vals)) ∈ Spec.rowPrefixStates sdbN (.delete table w) ∧
+      (∀ n, n ≠ table → Spec.findTable sdbK n = Spec.findTable sdbN n) ∧
+      rK.hdr.lastKey = dbN.store.hdr.lastKey ∧ rK.hdr.nextFree = dbN.store.hdr.nextFree :=
+  delete_crash_rowPrefixState sch run hwal pt tbls hA hself hf table w sdbC hspec n dbC heval k
+
+/-- **C03.update_crash_leaves_row_prefix**: likewise for UPDATE - the first `min k (selected rows)`
+selected rows are rewritten, the others are as before. -/
+theorem C03_update_crash_leaves_row_prefix (sch : Levels) {db0 dbN : Engine.DB} {sdb0 sdbN : Spec.SDB}
+    {stmts : List EStmt} (run : SpecRun sch db0 sdb0 stmts dbN sdbN) (hwal : db0.wal = [])
+    (pt : Levels) (tbls : List (Bytes × Levels)) (hA : AbsV db0.store pt sch tbls sdb0)
+    (hself : PtSelf pt) (hf : FreshM db0.store tbls)
+    (table : Bytes) (sets : List (Bytes × Sql.VExpr)) (w : Option Sql.Cond)
+    (hvalid : ∀ p ∈ sets, ∀ l, p.2 = .lit l → ValidVal (Engine.litToVal l)) (sdbC : Spec.SDB)
+    (hspec : Spec.specUpdate sdbN table sets w = some sdbC)
+    (dbC : Engine.DB) (heval : Engine.evalUpdate dbN table sets w = .ok () dbC) (k : Nat) :
+    ∃ rK ptK tblsK sdbK stK,
+      replayAll (dbN.wal ++ (dbC.wal.drop dbN.wal.length).take k) db0.store = (rK, none, false) ∧
+      AbsV rK ptK sch tblsK sdbK ∧
+      Spec.findTable sdbK table = some stK ∧
+      (table, stK.rows.map (·.vals)) ∈ Spec.rowPrefixStates sdbN (.update table sets w) ∧
+      (∀ n, n ≠ table → Spec.findTable sdbK n = Spec.findTable sdbN n) ∧
+      rK.hdr.lastKey = dbN.store.hdr.lastKey ∧ rK.hdr.nextFree = dbN.store.hdr.nextFree :=
+  update_crash_rowPrefixState sch run hwal pt tbls hA hself hf table sets w hvalid sdbC hspec dbC heval k
+
+/-- **C03.log_cut_is_statement_prefix** (storage level, any mix of row operations over several
+tables): replaying the first `k` records of what a live run logged reproduces the live state after a
+prefix of the row operations, page for page on every table and `sys_schema`; the only cut that is not
+a row boundary - between the two records of an insert that moved a root - yields the state AFTER that
+row with one leaf of the page table carrying an older LSN stamp (`PtRestamp`). -/
+theorem C03_log_cut_is_statement_prefix (sch : Levels) {s0 sN : Store} {tbls tblsN : List (Bytes × Levels)}
+    {stmts : List RStmt} {logs : List WalRec} (run : LiveRunM sch s0 tbls stmts sN tblsN logs)
+    (pt : Levels) (h : Cat s0 pt sch tbls) (hself : PtSelf pt) (hf : FreshM s0 tbls)
+    (k : Nat) (hk : k ≤ logs.length) :
+    ∃ j sK tblsK logsK ptK ptR rK,
+      j ≤ stmts.length ∧
+      LiveRunM sch s0 tbls (stmts.take j) sK tblsK logsK ∧
+      replayAll (logs.take k) s0 = (rK, none, false) ∧
+      Cat sK ptK sch tblsK ∧ Cat rK ptR sch tblsK ∧
+      (∀ x ∈ sch :: tblsK.map (·.2), ∀ o ∈ offs x, view rK o = view sK o) ∧
+      rK.hdr.nextFree = sK.hdr.nextFree ∧ rK.hdr.lastKey = sK.hdr.lastKey ∧
+      rK.hdr.ptRoot = sK.hdr.ptRoot ∧ rK.hdr.nextLSN ≤ sK.hdr.nextLSN ∧
+      ((logsK = logs.take k ∧ ptR = ptK ∧ ∀ o ∈ offs ptK, view rK o = view sK o) ∨
+       (logsK = logs.take (k + 1) ∧ k + 1 ≤ logs.length ∧ PtRestamp ptR ptK ∧
+         ∃ table cols vals, (stmts.take j).getLast? = some (.ins table cols vals))) :=
+  replay_prefix sch run pt h hself hf k hk
+
+end Mkdb.Store
